@@ -86,10 +86,16 @@ Definition reg16 (s : str) : option (reg16 * str) :=
   | [] => None
   end.
 
-(** index_ops: '-' reg16 / reg16 '+' expr / reg16 '+' / reg16 !char_ident *)
+(** index_ops: '-' reg16 !char_ident / reg16 '+' expr / reg16 '+' / reg16 !char_ident
+    (a name that merely begins with x, y or z behind a minus sign is an expression: -yval) *)
 Definition index_ops (s : str) : option (index * str) :=
   or_opt (match lit_tok "-" s with
-          | Some r => match reg16 r with Some (x, r') => Some (IPreDec x, r') | None => None end
+          | Some r => match reg16 r with
+                      | Some (x, r') => match r' with
+                                        | c :: _ => if is_idch c then None else Some (IPreDec x, r')
+                                        | [] => Some (IPreDec x, r')
+                                        end
+                      | None => None end
           | None => None end)
   (match reg16 s with
    | Some (x, r) =>
